@@ -196,7 +196,8 @@ def run(ctx):
                 if m[0] == 'agg' and P._agg_rv(m)['variant'] == 'Err':
                     inner_ = P.root(P._field(m, 0, 0))
                     for se, _ in inner_:
-                        if se[0] == 'agg' and path_matches(P._agg_rv(se)['adt'], 'ServerError'):
+                        seu = P.unbound(se)     # the error may be built by the crate's own constructor fn (`ServerError::new(kind, detail)`)
+                        if seu[0] == 'agg' and path_matches(P._agg_rv(seu)['adt'], 'ServerError'):
                             kinds = P.root(P._field(se, 'kind'))
                             ok_msg = bool(kinds) and all(k[0] == 'agg' and P._agg_rv(k)['variant'] == 'WouldBlock' for k, _ in kinds)
             ok = ok_id and ok_msg
